@@ -76,7 +76,10 @@ func compressRaw(in []byte, crc bool, parts []int) (res CompressResult) {
 	for i, k := range parts {
 		var n int
 		var err error
-		if i%2 == 1 && k > 0 {
+		if i%4 == 2 && k > 0 {
+			// ... or as a string (io.WriteString uses the Writer's WriteString when it has one)
+			n, err = io.WriteString(w, string(in[off:off+k]))
+		} else if i%2 == 1 && k > 0 {
 			// every other piece reaches the Writer the way a relay feeds it: io.Copy from a plain io.Reader (which uses the
 			// Writer's ReadFrom when it has one)
 			var n64 int64
@@ -194,7 +197,7 @@ func (s Source) String() string {
 // Sources used in rotation. bytes.Reader is an io.ByteReader/io.Seeker/io.WriterTo; the chunk
 // readers are plain io.Readers that return short reads; dataerr returns the final bytes together
 // with io.EOF, which io.Reader permits.
-var Sources = []Source{{Kind: "bytes"}, {Kind: "chunk", K: 1}, {Kind: "chunk", K: 7, Seed: 1}, {Kind: "dataerr", K: 5}, {Kind: "chunk", K: 4096, Seed: 2}, {Kind: "buffer"}, {Kind: "open"}}
+var Sources = []Source{{Kind: "bytes"}, {Kind: "chunk", K: 1}, {Kind: "chunk", K: 7, Seed: 1}, {Kind: "dataerr", K: 5}, {Kind: "chunk", K: 4096, Seed: 2}, {Kind: "buffer"}, {Kind: "open"}, {Kind: "idle"}}
 
 // The compressed stream is always served out of the middle of a larger array (a spool that holds other data in front
 // of and behind it, as a mail spool or a receive buffer does): the slice handed to the source ends at the stream's last
@@ -238,6 +241,8 @@ type chunkReader struct {
 	failAt int
 	off    int
 	beyond int // Read calls made after the last byte had been delivered
+	// idleEvery > 0: every idleEvery-th call returns (0, nil)
+	idleEvery, calls int
 }
 
 // ErrTransient is the one-shot error of the "transient" source.
@@ -246,6 +251,11 @@ var ErrTransient = errors.New("lzwork: transient source error (i/o timeout)")
 func (c *chunkReader) Read(p []byte) (int, error) {
 	if len(p) == 0 {
 		return 0, nil
+	}
+	if c.idleEvery > 0 && len(c.b) > 0 {
+		if c.calls++; c.calls%c.idleEvery == 0 {
+			return 0, nil
+		}
 	}
 	if len(c.b) == 0 {
 		// on a connection that stays open after the message (a TNC link, a TCP session in a request/response exchange)
@@ -287,6 +297,8 @@ func (s Source) Open(stream []byte) io.Reader {
 			c.r = vrt.Rand(s.Seed, "chunk", len(stream))
 		}
 		return c
+	case "idle": // a polling source: every third Read returns (0, nil) - no progress this time, legal for an io.Reader
+		return &chunkReader{b: stream, k: 7, failAt: -1, idleEvery: 3}
 	case "open": // like chunk 61, and the driver reports Read calls made after the last byte (ReadResult.BeyondEnd)
 		return &chunkReader{b: stream, k: 61, failAt: -1, r: vrt.Rand(7, "open", len(stream))}
 	case "transient": // K = offset of the byte whose delivery fails once
